@@ -219,8 +219,14 @@ def gen_case(rng, tier, index):
     if op.startswith("evo_"):
         # the second well of an EVO script command must lie in the same column as the first one
         good = [rng.randrange(nr), 0]
-    return {"kind": "unknown", "device": device, "lw": lw, "op": op, "cls": cls, "bad": bad, "form": form,
+    case = {"kind": "unknown", "device": device, "lw": lw, "op": op, "cls": cls, "bad": bad, "form": form,
             "good": good, "label": rng.choice([None, None, "step"])}
+    if rng.random() < 0.2:
+        # nothing is to be pipetted at the unknown well (volume 0 for that entry): the id is still unknown
+        case["zero"] = True
+        if op in ("transfer_src", "transfer_dst"):
+            case["form"] = rng.choice(FORMS)
+    return case
 
 
 # ---------------------------------------------------------------------------------------------
@@ -536,29 +542,33 @@ def _run_unknown(ctx, case):
         raise ValueError(op)
     before = [o.volumes.copy() for o in (obj, plate, src)]
     label = case.get("label")
+    V = 10.0
+    if case.get("zero"):
+        ctx.count("unknown_id_with_zero_volume")
+        V = [0.0 if w == bad else 10.0 for w in wells] if isinstance(wells, list) and nw > 1 and op != "distribute" else 0.0
     exc = None
     try:
         if op == "aspirate":
-            wl.aspirate(obj, wells, 10.0, label=label)
+            wl.aspirate(obj, wells, V, label=label)
         elif op == "dispense":
-            wl.dispense(obj, wells, 10.0, label=label)
+            wl.dispense(obj, wells, V, label=label)
         elif op == "transfer_src":
-            wl.transfer(obj, wells, plate, "A01", 10.0, label=label)
+            wl.transfer(obj, wells, plate, "A01", V, label=label)
         elif op == "transfer_dst":
-            wl.transfer(plate, "A01", obj, wells, 10.0, label=label)
+            wl.transfer(plate, "A01", obj, wells, V, label=label)
         elif op == "distribute":
-            wl.distribute(src, 0, obj, wells, volume=10.0, label=label or "")
+            wl.distribute(src, 0, obj, wells, volume=V, label=label or "")
         elif op == "transfer_within_src":
             # source and destination are the SAME labware object; the unknown id is on the source side
             nd = 1 if not isinstance(wells, list) else len(wells)
-            wl.transfer(obj, wells, obj, [good] * nd if isinstance(wells, list) else good, 10.0, label=label or "within")
+            wl.transfer(obj, wells, obj, [good] * nd if isinstance(wells, list) else good, V, label=label or "within")
         elif op == "transfer_within_dst":
             nd = 1 if not isinstance(wells, list) else len(wells)
-            wl.transfer(obj, [good] * nd if isinstance(wells, list) else good, obj, wells, 10.0, label=label or "within")
+            wl.transfer(obj, [good] * nd if isinstance(wells, list) else good, obj, wells, V, label=label or "within")
         elif op == "evo_aspirate":
-            wl.evo_aspirate(obj, wells if form != "scalar" else [bad], (10, 1), list(range(1, nw + 1)), 10.0, "lc", label=label)
+            wl.evo_aspirate(obj, wells if form != "scalar" else [bad], (10, 1), list(range(1, nw + 1)), V, "lc", label=label)
         elif op == "evo_dispense":
-            wl.evo_dispense(obj, wells if form != "scalar" else [bad], (10, 1), list(range(1, nw + 1)), 10.0, "lc", label=label)
+            wl.evo_dispense(obj, wells if form != "scalar" else [bad], (10, 1), list(range(1, nw + 1)), V, "lc", label=label)
     except Exception as e:
         exc = e
     records = list(wl)
